@@ -16,7 +16,8 @@ import IpaVerif.Model.DzkpBatch
                            interpolated at the challenge: every intermediate `g` difference of an honest prover is 0;
 * `final_level`          — the masked last level: the final sum share skips the mask slot and the product
                            `p(r)·q(r)` equals the last proof interpolated at the last challenge;
-* `honest_accept_partial`— the conjunction, for every batch size and every challenge/mask values.
+* `honest_levels`        — the conjunction, for every batch size and every challenge/mask values
+                           (composed over the whole loop in `Props/C03Batch.lean`: `honest_accept`).
 -/
 namespace IpaVerif.C03Algebra
 open IpaVerif.DzkpBatch (V4)
@@ -196,16 +197,13 @@ theorem final_level (h2 : (2 : K) ≠ 0) (h3 : (3 : K) ≠ 0) (h5 : (5 : K) ≠ 
   · have := (proof_step_complete h2 h3 h5 [m] r).2
     simpa [G] using this
 
-/-- **honest_accept** (partial). Full statement: for every batch (any number of multiplications, any segment
-widths, any masks, any challenges outside {0..L−1}) an honest prover's `ProofBatch::generate` followed by
-honest `BatchToVerify::verify` on both verifiers yields all-zero recombined `g` differences.
-Proved here: the three equalities that make each difference zero, for every batch size and all challenge
-and mask values — first level (`Σ_{i<L} G₁(i) = Σ ⟨u,v⟩`, which the arithmetic theorem
-`IpaVerif.C03.sum_iff_all_consistent` equates with `−m/2`), every intermediate level (`honest_level`), and the
-masked final level (`final_level`). Missing: the composition over the `while !did_set_masks` loop of the Rust
-code with its PRSS share-splitting of each proof (the two verifiers' shares add up to the proof: linear, tested
-by `c03_validate`), and the instantiation `K = ZMod (2^61 − 1)`. -/
-theorem honest_accept_partial (h2 : (2 : K) ≠ 0) (h3 : (3 : K) ≠ 0) (h5 : (5 : K) ≠ 0) :
+/-- **honest_levels**: the three per-level equalities that make each `g` difference of an honest prover zero, for
+every batch size and all challenge and mask values — first level (`Σ_{i<L} G₁(i) = Σ ⟨u,v⟩`, which the arithmetic
+theorem `IpaVerif.C03.sum_iff_all_consistent` equates with `−m/2`), every intermediate level (`honest_level`), and the
+masked final level (`final_level`). The composition over the `while !did_set_masks` loop with its PRSS share splitting,
+both verifiers' recomputation and the instantiation `K = ZMod (2^61 − 1)` is `IpaVerif.C03Batch.honest_accept` /
+`honest_accept_fp61` (Props/C03Batch.lean), which use these lemmas. -/
+theorem honest_levels (h2 : (2 : K) ≠ 0) (h3 : (3 : K) ≠ 0) (h5 : (5 : K) ≠ 0) :
     (∀ cs : List (V4 K × V4 K), G cs 0 + G cs 1 + G cs 2 + G cs 3 = (cs.map fun c => c.1.dot c.2).sum) ∧
     (∀ (cs : List (V4 K × V4 K)) (r : K),
       G (chunk4p (nextLevel cs r)) 0 + G (chunk4p (nextLevel cs r)) 1 + G (chunk4p (nextLevel cs r)) 2 +
